@@ -17,6 +17,8 @@ unsafe impl<T: bytemuck::Pod> bytemuck::Zeroable for Cnt<T> {}
 unsafe impl<T: bytemuck::Pod> bytemuck::Pod for Cnt<T> {}
 impl<T: Ord> PartialEq for Cnt<T> {
     fn eq(&self, o: &Self) -> bool {
+        // an equality test is an element comparison too
+        CMP_COUNT.with(|c| *c.borrow_mut() += 1);
         self.0 == o.0
     }
 }
@@ -52,6 +54,7 @@ unsafe impl bytemuck::Zeroable for Pair {}
 unsafe impl bytemuck::Pod for Pair {}
 impl PartialEq for Pair {
     fn eq(&self, o: &Self) -> bool {
+        CMP_COUNT.with(|c| *c.borrow_mut() += 1);
         self.a == o.a
     }
 }
@@ -156,7 +159,7 @@ macro_rules! arr_runner {
                             },
                             _ => unreachable!(),
                         };
-                        cnt = 0;
+                        cnt = if name == "gmut" { take_count() } else { 0 };
                         take_count();
                     } else {
                         macro_rules! query {
@@ -188,7 +191,7 @@ macro_rules! arr_runner {
                 });
                 match r {
                     None => {
-                        out.push_str(&format!("{} r=P\n", i));
+                        out.push_str(&format!("{} r=P{}\n", i, if buf.guards_intact() { "" } else { " g=BAD" }));
                         break;
                     }
                     Some((res, cnt)) => {
@@ -209,7 +212,7 @@ macro_rules! arr_runner {
                         })
                         .unwrap_or("PANIC".to_string());
                         out.push_str(&format!("{} r={} d={:016x} abs={}", i, res, fnv(buf.bytes()), abs));
-                        if name == "get" || name == "has" {
+                        if name == "get" || name == "has" || name == "gmut" {
                             out.push_str(&format!(" cm={}", cnt));
                         }
                         if !buf.guards_intact() {
